@@ -220,6 +220,14 @@ def analyze(ex, stmts, eff=None):
             elif r:
                 eff.mutated.add(r)
         cs = None
+        if not dotted and not isinstance(n.func, ast.Name):
+            try:
+                tgt = ex.spec.get('calls', {}).get(ast.unparse(n.func))
+            except Exception:
+                tgt = None
+            if tgt is not None and hasattr(tgt, 'mutates'):
+                for m in tgt.mutates: eff.mutated.add(m)
+                return
         if dotted:
             tgt = ex.spec.get('calls', {}).get(dotted)
             if isinstance(tgt, str):
